@@ -151,6 +151,44 @@ fn run(op: &str, a: &[&str]) -> String {
                 _ => g2a(&<G2 as HashToCurve<ExpandMsgXof<sha3::Shake128>>>::hash_to_curve(&msg, &dst).into_affine()),
             }
         }
+        // ---- expand_message and hash_to_field on their own: `expand <xmd256|xmd512|xof128|xof256> msg dst len`
+        "expand" => {
+            use pairing_plus::hash_to_field::ExpandMsg;
+            let (msg, dst, n) = (unhex(a[1]), unhex(a[2]), a[3].parse::<usize>().unwrap());
+            let v = match a[0] {
+                "xmd256" => <ExpandMsgXmd<sha2::Sha256> as ExpandMsg>::expand_message(&msg, &dst, n),
+                "xmd512" => <ExpandMsgXmd<sha2::Sha512> as ExpandMsg>::expand_message(&msg, &dst, n),
+                "xof128" => <ExpandMsgXof<sha3::Shake128> as ExpandMsg>::expand_message(&msg, &dst, n),
+                _ => <ExpandMsgXof<sha3::Shake256> as ExpandMsg>::expand_message(&msg, &dst, n),
+            };
+            let mut o = format!("{} ", v.len());
+            for b in v.iter() {
+                o.push_str(&format!("{:02x}", b));
+            }
+            o
+        }
+        // `h2f <fq|fr|fq2> <xmd256|xof128> msg dst count`
+        "h2f" => {
+            use pairing_plus::hash_to_field::hash_to_field;
+            let (msg, dst, n) = (unhex(a[2]), unhex(a[3]), a[4].parse::<usize>().unwrap());
+            fn hr(x: &Fr) -> String {
+                let r = x.into_repr();
+                let mut s = String::new();
+                for l in r.as_ref().iter().rev() {
+                    s.push_str(&format!("{:016x}", l));
+                }
+                s
+            }
+            let body = match (a[0], a[1]) {
+                ("fq", "xmd256") => hash_to_field::<Fq, ExpandMsgXmd<sha2::Sha256>>(&msg, &dst, n).iter().map(h).collect::<Vec<_>>().join(" "),
+                ("fq", _) => hash_to_field::<Fq, ExpandMsgXof<sha3::Shake128>>(&msg, &dst, n).iter().map(h).collect::<Vec<_>>().join(" "),
+                ("fr", "xmd256") => hash_to_field::<Fr, ExpandMsgXmd<sha2::Sha256>>(&msg, &dst, n).iter().map(hr).collect::<Vec<_>>().join(" "),
+                ("fr", _) => hash_to_field::<Fr, ExpandMsgXof<sha3::Shake128>>(&msg, &dst, n).iter().map(hr).collect::<Vec<_>>().join(" "),
+                (_, "xmd256") => hash_to_field::<Fq2, ExpandMsgXmd<sha2::Sha256>>(&msg, &dst, n).iter().map(h2).collect::<Vec<_>>().join(" "),
+                _ => hash_to_field::<Fq2, ExpandMsgXof<sha3::Shake128>>(&msg, &dst, n).iter().map(h2).collect::<Vec<_>>().join(" "),
+            };
+            format!("n={} {}", n, body)
+        }
         "profile" => (if cfg!(debug_assertions) { "dev" } else { "release" }).to_string(),
         _ => format!("UNKNOWN-OP {}", op),
     }
